@@ -35,7 +35,6 @@ var c15Quirks = map[string][]string{
 	"retype_field":      {"retype_field/first-match-only", "seq/as-value-shared"},
 	"replace_reference": {"replace_reference/drops-meta", "replace_reference/refs-outside-visitor-positions"},
 	"constant_to_enum":  {"constant_to_enum/drops-meta"},
-	"hint_object":       {"hint_object/nil-hints-panic"},
 	"trim_enum_values":  {"trim_enum_values/enums-outside-visitor-positions"},
 	"prefix":            {"prefix/refs-outside-visitor-positions", "prefix/enum-member-names-rewritten", "prefix/entrypoint-string-stale"},
 }
@@ -696,10 +695,6 @@ func c15SpecStep(st *c15Step, ss ast.Schemas, q c15Q, touched map[string]bool) s
 				return o, true
 			}
 			if o.Type.Hints == nil {
-				if q["hint_object/nil-hints-panic"] && len(st.KVs) > 0 {
-					status = "panic"
-					return o, true
-				}
 				o.Type.Hints = ast.JenniesHints{}
 			}
 			for _, e := range st.KVs {
